@@ -36,6 +36,10 @@ RDB_TOTAL_KANI = [
     _kx('rdb_read_length_total', 'rdb_codec'),
 ]
 
+CMD_SHARED = ['resp_from_bytes', 'resp_null_bulk']
+def _cg(group, first=False):
+    return {'group': group} if first else {'group': group, 'exclude_units': CMD_SHARED}
+
 def _sg(group):
     # secondary shard groups re-verify the shared value.rs units; count them once (in shard_core)
     return {'group': group, 'exclude_units': SHARD_VALUE_UNITS}
@@ -48,7 +52,7 @@ SETRANGE_KANI = [
 PROPS = {
     'C01': {
         'level': 'proof',
-        'verus': [{'group': 'shard_core'}, _sg('shard_strings'), {'group': 'shard_sweeper', 'units': ['rename_same_shard', 'rename_cross_shard']}, {'group': 'cmd_strings'}],
+        'verus': [{'group': 'shard_core'}, _sg('shard_strings'), {'group': 'shard_sweeper', 'units': ['rename_same_shard', 'rename_cross_shard']}, _cg('cmd_strings', True)],
         'kani': SETRANGE_KANI,
         'explanation': 'kernel-scoped: storage-engine string/key functions proved against Redis-semantics spec functions on one shard; handlers/dispatch are unverified surroundings',
     },
@@ -59,7 +63,7 @@ PROPS = {
     },
     'C03': {
         'level': 'proof',
-        'verus': [{'group': 'c03_lists_arith'}, _sg('shard_lists'), _sg('shard_sets'), _sg('shard_hashes')],
+        'verus': [{'group': 'c03_lists_arith'}, _sg('shard_lists'), _sg('shard_sets'), _sg('shard_hashes'), _cg('cmd_lists', True), _cg('cmd_sets'), _cg('cmd_hashes')],
         'explanation': 'index arithmetic of list commands against spec_range',
     },
     'C04': {
@@ -72,7 +76,7 @@ PROPS = {
         # C06 = the safety obligations (overflow, bounds, slice ranges, unwrap, preconditions of callees such as the
         # allocation budget) of EVERY unit under contract, for all argument values
         'verus': [{'group': g, 'kinds': ['safety', 'requires-at-call', 'decreases', 'invariant']} for g in
-                  ['shard_core', 'shard_strings', 'shard_lists', 'shard_sweeper', 'shard_sets', 'shard_hashes', 'shard_zsets', 'c03_lists_arith', 'c04_zset_arith', 'c19_scan', 'c20_parser', 'c09_rdb', 'c13_blocking', 'c07_transactions']],
+                  ['shard_core', 'shard_strings', 'shard_lists', 'shard_sweeper', 'shard_sets', 'shard_hashes', 'shard_zsets', 'cmd_strings', 'cmd_lists', 'cmd_sets', 'cmd_hashes', 'c03_lists_arith', 'c04_zset_arith', 'c19_scan', 'c20_parser', 'c09_rdb', 'c13_blocking', 'c07_transactions']],
         'kani': STREAM_KANI[:1] + RDB_TOTAL_KANI,
         'explanation': 'function by function: every unit under contract is proved free of index/slice errors, arithmetic overflow, failing unwraps and unbounded reservations for ALL argument values; the claim is "no panic in these functions", not "no panic in the server"',
     },
